@@ -375,7 +375,7 @@ def counts(E):
 
 def harnesses(tier):
     q = tier == "quick"
-    T = 600 if q else 2400
+    T = 600 if q else 900
     n, m = (2, 2) if q else (2, 3)
     return [
         H("doubling", doubling, dict(n=n, m=m), FUNCS, covers=["doubling"],
